@@ -317,6 +317,11 @@ pub fn one_case(existing: &str, s: &Supplied, position: u8, t: &mut Tally) -> Op
 }
 
 pub fn run(tier: Tier, started: Instant) -> Vec<Part> {
+    run_for("C18", tier, started)
+}
+
+/// For C04 the same calls are run and only the frontier / no-abort clauses are reported.
+pub fn run_for(property: &'static str, tier: Tier, started: Instant) -> Vec<Part> {
     let vmax = tier.pick(4u64, 5u64);
     let mut part = Part::new(&format!("catchup/calls(versions 0..{vmax})"));
     part.rule = format!("reset_node_state_if_update called on a real node for every existing copy in {{absent, empty, (0,2) with two keys, mid-reset (3,0), mid-reset (3,1), ahead (0,5), garbage collected (after heartbeats; after a catch-up only, never a heartbeat), live}} x every supplied state (key sets over {{a (present in the copy), c (new)}} with versions 0..{vmax} and every status, max_version 0..={vmax}, last_gc_version 0..={vmax}, consistent or not) x position (alone, before a real handshake with a peer that is ahead, after it, between its SYN and SYN-ACK); oracle: no panic, (watermark, max version) not lowered, the copy is unchanged or its key set is the supplied one with the newer version of shared keys, a garbage collected member stays absent, the member does not become live; when the supplied state is internally consistent (distinct versions >= 1, none above its max version) and does not contradict the copy (shared keys not older, one version = one key) gossip afterwards neither panics nor lowers a frontier; non-trivial = calls that replaced the key set");
@@ -352,7 +357,10 @@ pub fn run(tier: Tier, started: Instant) -> Vec<Part> {
     }
     viols.sort_by_key(|v| v.replay.to_string().len());
     for v in viols {
-        part.violation("C18", v.what, v.sig, v.replay);
+        if property != "C18" && !(v.sig == "frontier-lowered" || v.sig.starts_with("panic")) {
+            continue;
+        }
+        part.violation(property, v.what, v.sig, v.replay);
     }
     part.states = (supplied.len() * EXISTING.len()) as u64;
     part.transitions = part.tally.get("cases");
